@@ -415,10 +415,11 @@ impl RaftStorage<ClientRequest, ClientResponse> for FileStore {
             .send(StateApplyRequest::ApplySnapshot { snapshot })
             .await??;
         //清除废弃日志
+        //delete_through为None时表示本节点日志全部落后于镜像,需清除全部日志
         let split_off_index = if let Some(v) = delete_through {
             v + 1
         } else {
-            0
+            u64::MAX
         };
         self.log_manager
             .send(RaftLogManagerRequest::SplitOff(split_off_index))
